@@ -104,6 +104,9 @@ func classifyOne(sys semver.System, a string) string {
 	if sys == semver.Maven && len(a) > 0 && (a[0] == '.' || a[0] == '-') {
 		return "F-C10-mvn-leadsep" // hypothesis: the Maven string does not begin with a separator
 	}
+	if sys == semver.PyPI && strings.Contains(v.Canon(true), "∞") {
+		return "F-C10-pypi-inf" // hypothesis Props.C10.NoInfinity: PyPI accepts the infinity sign as a release number
+	}
 	if sys == semver.RubyGems && v.IsPrerelease() {
 		return "F-C10-gem" // the property's own exclusion: release-only RubyGems versions
 	}
@@ -172,6 +175,11 @@ func run(c *fw.Ctx) {
 		}
 		for i := 0; i < per; i++ {
 			try(semverops.GenVersion(c.Rng, sys))
+		}
+		if sys == semver.PyPI {
+			for _, s := range []string{"01!∞", "00!∞", "1.∞", "01!∞.1", "2.∞.0"} {
+				try(s)
+			}
 		}
 		for i := 0; i < per/10; i++ {
 			try(semverops.Mutate(c.Rng, semverops.GenVersion(c.Rng, sys)))
